@@ -89,7 +89,7 @@ impl FeatureFromStrTrait {
                     impl ::core::str::FromStr for #ident_enum {
                         type Err = ();
 
-                        fn from_str(s: &str) -> ::core::result::Result<Self, Self::Err> {
+                        fn from_str(s: &str) -> ::core::result::Result<Self, ()> {
                             use ::core::result::Result::{Ok, Err};
                             match s {
                                 #(#matches)*
@@ -105,7 +105,7 @@ impl FeatureFromStrTrait {
                         impl ::core::str::FromStr for #ident_enum {
                             type Err = ();
 
-                            fn from_str(s: &str) -> ::core::result::Result<Self, Self::Err> {
+                            fn from_str(s: &str) -> ::core::result::Result<Self, ()> {
                                 use ::core::iter::Iterator;
                                 use ::core::result::Result::{Ok, Err};
                                 for (i, n) in Self::#ident_table_name.iter().enumerate() {
@@ -123,7 +123,7 @@ impl FeatureFromStrTrait {
                         impl ::core::str::FromStr for #ident_enum {
                             type Err = ();
 
-                            fn from_str(s: &str) -> ::core::result::Result<Self, Self::Err> {
+                            fn from_str(s: &str) -> ::core::result::Result<Self, ()> {
                                 use ::core::iter::Iterator;
                                 use ::core::result::Result::{Ok, Err};
                                 for (e, n) in Self::#ident_table_enum.iter().zip(Self::#ident_table_name.iter()) {
